@@ -230,6 +230,7 @@ def calc_spec(cfg):
     rates = {1: ['FCR', 'inflrateconstruction'], 2: ['discountrate', 'inflrateconstruction'],
              3: ['FIB', 'BIR', 'CTR', 'EIR', 'RINFL', 'PTR', 'RITC', 'GTR', 'inflrateconstruction']}[cfg['em']]
     s += [(f'economics.{r}', 'real', 0.001, 0.5) for r in rates]
+    s += [('economics.AnnualLicenseEtc', 'real', -100, 100), ('economics.TaxRelief', 'real', 0, 100)]      # annual fees / tax relief are part of the reported O&M
     for p in c04.products_of(cfg['kind']):
         s += [(f'surfaceplant.{c04.PRODUCTS[p]}[{i}]', 'real', None, None) for i in range(L)]
     for j in range(cfg.get('addon', 0)):
@@ -365,8 +366,14 @@ def run_unit(unit):
                 out = E.CalculateLCOELCOHLCOC(e, m)
                 ref = oracle(v, em, eu, pt, n)
                 return v, out, ref
-            for pr in core.explore(fn, max_paths=50):
+            stub_gap = None
+            for pr in core.explore(fn, max_paths=50, catch=(Exception,)):
                 log.path(pr)
+                if isinstance(pr.error, AttributeError) and 'SimpleNamespace' in str(pr.error):
+                    # the function reads state that the documented inputs (DESIGN Appendix A) do not include: level A cannot stand in for the
+                    # object that Economics.Calculate prepares - this configuration is decided by level B only (through the real Calculate)
+                    stub_gap = str(pr.error)
+                    break
                 if pr.error is not None:
                     raise pr.error
                 v, out, ref = pr.value
@@ -391,6 +398,8 @@ def run_unit(unit):
                                       desc=f'{nm}_impl != {nm}_ref under path condition; {cfg["names"]} L={n}')
                 # encoding self-check: evaluate symbolic terms at the example point vs the float run
                 _selfcheck(log, cfg, out, zvars, ex)
+            if stub_gap:
+                log['inconclusive'].append({'obligation': 'LCOE/LCOH/LCOC == reference (level A)', 'why': 'the function reads state outside its documented inputs: ' + stub_gap[:120]})
             yield log.result()
 
 
